@@ -266,7 +266,8 @@ pub fn run(cfg: &RunCfg, rep: &mut Report) {
                 }
                 // (2) mutated witnesses / scriptSigs: accept => refvm accepts under CONSENSUS
                 let log = assets.log.borrow().clone();
-                let mut pool: Vec<Vec<u8>> = vec![vec![], vec![1], vec![0; 32], vec![0x42; 33]];
+                // other spellings of false and true (zero bytes, negative zero, non-minimal one) next to the canonical ones
+                let mut pool: Vec<Vec<u8>> = vec![vec![], vec![1], vec![0; 32], vec![0x42; 33], vec![0], vec![0], vec![0, 0], vec![0x80], vec![1, 0], vec![2]];
                 pool.extend(log.ecdsa.values().cloned());
                 pool.extend(log.schnorr.values().cloned());
                 pool.extend(p.witness.iter().cloned());
